@@ -185,8 +185,15 @@ DeleteCheck(uno, T, at, res, post) ==
 \* Replace(at, S): the subtree at `at' is exactly S (defaults of created nodes admitted),
 \* everything else as before; the order of the other entries of the list is kept but the
 \* replaced entry may move to the end (it is deleted and inserted again)
+\* a payload that also holds a container / entry beside `at' that the store has already: the insert
+\* into the parent meets it and the replace fails (ReplaceFrom = Delete, then InsertFrom on the parent)
+WideReplace(T, at, S) ==
+    \E q \in S.cont : /\ ~IsPrefixOf(q, at) /\ ~Under(at, q)
+                       /\ q \in T.cont /\ Len(q) >= Len(at)
+
 ReplaceCheck(DS, uno, T, at, S, res, post) ==
-    IF ~res.ok THEN "replace-rejected"
+    IF WideReplace(T, at, S) THEN (IF res.ok THEN "replace-payload-merged-into-sibling" ELSE "ok")
+    ELSE IF ~res.ok THEN "replace-rejected"
     ELSE LET base == CanonDelete(T, at)
              unoR == IF IsEntry(at) THEN uno \cup {FrontOf(at)} ELSE uno
          IN IF \E q \in Subtree(T, at) : q \in Paths(post) /\ q \notin Paths(S) /\
